@@ -813,26 +813,38 @@ func runC06Close(c *Ctx, ea *engineAnchors, eg *EventGraph, handlerOut map[strin
 			okOrder := true
 			var why []string
 			nEmit := 0
-			s := eg.summ(0)
-			paths, _ := s.Function(h)
-			for _, ps := range paths {
-				emitIdx, setIdx := -1, -1
-				for i, e := range ps.Events {
-					if _, ok := eg.emitName(e); ok {
-						emitIdx = i
+			// the settlement steps and the emit may sit together in a helper of the handler (it
+			// emits, so it stays a call): then the order is read inside that helper
+			var scan func(fn *ssa.Function, depth int)
+			scan = func(fn *ssa.Function, depth int) {
+				s := eg.summ(0)
+				paths, _ := s.Function(fn)
+				for _, ps := range paths {
+					emitIdx, setIdx := -1, -1
+					var emitter *ssa.Function
+					for i, e := range ps.Events {
+						if _, ok := eg.emitName(e); ok {
+							emitIdx = i
+							emitter = e.Fn
+						}
+						if e.Kind == "call" && e.Fn != nil && (e.Fn == settle || mustCall(p, e.Fn, settle, 0)) {
+							setIdx = i
+						}
 					}
-					if e.Kind == "call" && e.Fn == settle {
-						setIdx = i
-					}
-				}
-				if emitIdx >= 0 {
-					nEmit++
-					if setIdx < 0 || setIdx > emitIdx {
-						okOrder = false
-						why = append(why, "path ["+ps.CondString()+"] emits without computing the result first")
+					if emitIdx >= 0 {
+						if (setIdx < 0 || setIdx > emitIdx) && emitter != nil && emitter != eg.Emit && depth < 3 && privateHelper(fn, emitter) {
+							scan(emitter, depth+1)
+							continue
+						}
+						nEmit++
+						if setIdx < 0 || setIdx > emitIdx {
+							okOrder = false
+							why = append(why, "path ["+ps.CondString()+"] emits without computing the result first")
+						}
 					}
 				}
 			}
+			scan(h, 0)
 			c.check(okOrder && nEmit > 0, "result-before-close", fnKey(h)+"#result-then-emit", p.FnPos(h), "the result is stored before "+chain[1]+" is emitted", "the hand can close without a result", why...)
 			// and the settlement function always stores a result
 			s2 := newSumm(p, 0)
